@@ -37,6 +37,7 @@ func runC16(w *World) *Result {
 	r.Rule("R-C16-labels", "Batch: every goto/call reference has a definition template; definitions unique per construct", 12)
 	r.Rule("R-C16-helpers", "helper routines: invocation implies flag set; (Batch) flag set implies an invocation is emitted", 10)
 	r.Rule("R-C16-nop", "the no-op emits one command line in both back ends", 2)
+	r.Rule("R-C16-jumps", "Batch loop/branch jumps use the labels their opener pushed (never a label recomputed from a moving counter)", 6)
 	for _, role := range []string{"bash", "batch"} {
 		b, err := BuildBackend(w, role)
 		if err != nil {
@@ -53,6 +54,8 @@ func runC16(w *World) *Result {
 		c16Nop(w, b, r)
 		if role == "batch" {
 			c16Labels(w, b, r)
+			// jumps stay inside their construct: labels/flags read back from the opener's stack entry
+			AllocRule(w, b, r, "R-C16-jumps")
 		}
 	}
 	return r
@@ -495,8 +498,30 @@ func c16Helpers(w *World, b *Backend, r *Result) {
 			if strings.HasPrefix(m, "helper:") {
 				// invoked from another helper's body: that helper's flag must imply this flag in ProgramEnd
 				outer := flags[strings.TrimPrefix(m, "helper:")]
-				if outer == flag || dep[outer][flag] {
-					r.Ok(rule, c, pos, "helper "+h+" is required whenever "+m+" is emitted ("+outer+" ⇒ "+flag+" in ProgramEnd)")
+				// … or every method that requests the calling helper also requests this one
+				allSetters := true
+				nSetters := 0
+				for _, mf := range b.X.Methods {
+					setsOuter, setsInner := false, false
+					for _, v := range mf.FieldsSet[outer] {
+						if v == "true" {
+							setsOuter = true
+						}
+					}
+					for _, v := range mf.FieldsSet[flag] {
+						if v == "true" {
+							setsInner = true
+						}
+					}
+					if setsOuter && mf.Name != "ProgramEnd" {
+						nSetters++
+						if !setsInner {
+							allSetters = false
+						}
+					}
+				}
+				if outer == flag || dep[outer][flag] || (nSetters > 0 && allSetters) {
+					r.Ok(rule, c, pos, "helper "+h+" is required whenever "+m+" is emitted ("+outer+" ⇒ "+flag+")")
 				} else {
 					r.Bad(rule, c, pos, "body of "+m+" calls "+h+" but emitting it ("+outer+") does not force "+flag)
 				}
